@@ -149,7 +149,9 @@ def _writer_conversion(branch: ast.AST, saved: str):
 
 
 def check_npz(prog: Program, res: Result) -> None:
+    import re as _re18
     R = "C18-npz"
+    writer_path: Dict[str, Optional[str]] = {}
     for cname, key in (("BaseDataset", "image"), ("CenteredInstanceDataset", "instance_image"), ("CentroidDataset", "image")):
         fi = prog.cls(f"{CD}:{cname}").methods.get("_fill_cache")
         res.touch(fi)
@@ -172,8 +174,12 @@ def check_npz(prog: Program, res: Result) -> None:
         loops_ = [n for n in walk_function(fi.node) if isinstance(n, ast.For) and norm(n.iter).startswith("enumerate(") and astq.in_body_of(b, n)]
         lv = norm(loops_[-1].target.elts[0]) if loops_ and isinstance(loops_[-1].target, ast.Tuple) else None
         path = astq.expand_at(fi.node, sv[0].args[0], astq_enclosing18(sv[0])) if len(sv) == 1 and sv[0].args else None
-        ok = conv is not None and lv is not None and path is not None and norm(path) == "f'{self.np_chunks_path}/sample_{" + lv + "}.npz'"
-        res.ob(R, ok, fi.qualname, "writer: np.savez_compressed(<path>/sample_<idx>.npz, **sample)", "the sample is not saved whole under <np_chunks_path>/sample_<idx>.npz", fi.where)
+        loop_vars = {t_ for l_ in walk_function(fi.node) if isinstance(l_, (ast.For, ast.comprehension)) for t_ in astq.target_names(l_.target)}
+        # the file of sample i is a function of np_chunks_path and the enumerate position only; the reader must form the SAME path
+        ptxt = _re18.sub(rf"\b{lv}\b", "_IDX_", norm(path)) if lv is not None and path is not None else None
+        writer_path[cname] = ptxt
+        ok = conv is not None and ptxt is not None and "_IDX_" in ptxt and "self.np_chunks_path" in ptxt and not ({n_ for n_ in astq.names_in(path) if astq.assignments_to(fi.node, n_) or n_ in loop_vars} - {lv})
+        res.ob(R, ok, fi.qualname, "writer: np.savez_compressed(<path>/sample_<idx>.npz, **sample)", "the sample is not saved whole under a path made of np_chunks_path and its index", fi.where)
     for cname, key in (("BottomUpDataset", "image"), ("CenteredInstanceDataset", "instance_image"), ("CentroidDataset", "image"), ("SingleInstanceDataset", "image")):
         gi = prog.cls(f"{CD}:{cname}").methods.get("__getitem__")
         res.touch(gi)
@@ -185,8 +191,12 @@ def check_npz(prog: Program, res: Result) -> None:
         # normalise the polarity: `b.body` is the chunk arm, `b.orelse` the in-memory arm
         b = b0 if norm(b0.test) == "self.np_chunks" else ast.If(test=b0.test, body=b0.orelse, orelse=b0.body)
         ld = [s for s in b.body if isinstance(s, ast.Assign) and isinstance(s.value, ast.Call) and norm(s.value.func) in ("np.load", "numpy.load")]
-        ok = len(ld) == 1 and norm(ld[0].value.args[0]) == "f'{self.np_chunks_path}/sample_{index}.npz'"
-        res.ob(R, ok, gi.qualname, "reader: np.load(<path>/sample_<index>.npz)", "the reader does not load <np_chunks_path>/sample_<index>.npz", gi.where)
+        ipar = gi.pos_params[1] if len(gi.pos_params) > 1 else "index"
+        rp = astq.expand_at(gi.node, ld[0].value.args[0], ld[0]) if len(ld) == 1 and ld[0].value.args else None
+        rtxt = _re18.sub(rf"\b{ipar}\b", "_IDX_", norm(rp)) if rp is not None else None
+        wtxt = writer_path.get(cname if cname in writer_path else "BaseDataset")
+        res.ob(R, rtxt is not None and rtxt == wtxt, gi.qualname, "reader: np.load of the file the writer saved for that index",
+               f"the reader loads `{rtxt}` but the writer saved sample i under `{wtxt}`", gi.where)
         disp = _key_dispatch(b.body)
         ok = disp is not None
         if ok:
@@ -432,9 +442,16 @@ def check_memo(prog: Program, res: Result) -> None:
                         defs = [d for d in astq.assignments_to(fi.node, v.elts[1].id) if isinstance(d, ast.Assign)] if isinstance(v.elts[1], ast.Name) else []
                         ok = any(norm(d.value) == f"{lf}.image" for d in defs) or (img is not None and norm(img) == f"{lf}.image")
                     res.ob(R, ok, fi.qualname, f"memo stores ({key}, {lf}.image)", f"`{short(st, 50)}` does not store the fetch index with that frame's image", f"{fi.module.relpath}:{st.lineno}")
-    res.floor(R, 2)
-    if n < 2:
-        raise AnalysisError("C18-memo: the frame-image memo (self.cache_lf) was not found")
+    # the memo is an optimisation: a dataset without one reads every frame afresh, which is always right.  The rule is armed
+    # (and must find its sites) only while some method still uses self.cache_lf.
+    any_memo = any(isinstance(x, ast.Attribute) and norm(x) == "self.cache_lf" for ci in prog.classes.values() if ci.module.name == "sleap_nn.data.custom_datasets"
+                   for fi in ci.methods.values() if fi.name != "__init__" for x in walk_function(fi.node))
+    if any_memo:
+        res.floor(R, 2)
+        if n < 2:
+            raise AnalysisError("C18-memo: the frame-image memo (self.cache_lf) is used but its hit test / refresh was not found")
+    else:
+        res.count(R, 0)
 
 
 def check_index(prog: Program, res: Result) -> None:
@@ -516,6 +533,47 @@ def check_crop_size(prog: Program, res: Result) -> None:
     res.ob(R, ok, gi.qualname, "box and output size of the re-crop are both self.crop_hw", "the streaming re-crop does not use self.crop_hw for both the box and the output size", gi.where)
 
 
+def check_precrop(prog: Program, res: Result) -> None:
+    """Both centered-instance writers cut an ENLARGED crop (crop size x sqrt 2, for rotation augmentation) that the readers
+    re-crop later: CenteredInstanceDataset._fill_cache (in-memory / .npz) and centered_instance_data_chunks (chunk + streaming).
+    The enlarged size must be derived from the configured crop size by the SAME expression in both - truncation in one and
+    rounding in the other differ by a pixel for many sizes (crop 64, 96, ...), the pre-crop is shifted by half a pixel and
+    the final instance image differs between the frameworks."""
+    import re as _re
+
+    R = "C18-frame"
+    gc = prog.func("sleap_nn.data.instance_cropping:generate_crops")
+    forms = {}
+    for q, crop_names in ((f"{CD}:CenteredInstanceDataset._fill_cache", ["self.crop_hw"]), ("sleap_nn.data.get_data_chunks:centered_instance_data_chunks", None)):
+        fi = prog.func(q)
+        res.touch(fi)
+        calls = [c for c, qq in prog.calls_in(fi) if qq == gc.qualname]
+        if len(calls) != 1:
+            res.ob(R, False, fi.qualname, "one generate_crops call", f"{len(calls)} generate_crops calls in {fi.name}", fi.where)
+            continue
+        a = astq.bind_args(gc, calls[0]).get("crop_size")
+        e = astq.expand_at(fi.node, a, enclosing_stmt18(calls[0])) if a is not None else None
+        # what the expression does to the configured size, however it is spelt: the rounding functions applied (none = the
+        # truncation of an int conversion), the factors, additive terms
+        rounding = sorted({norm(c.func).split(".")[-1] for c in ast.walk(e) if isinstance(c, ast.Call) and norm(c.func).split(".")[-1] in ("round", "around", "rint", "ceil", "floor")}) if e is not None else []
+        sqrt2 = e is not None and any((isinstance(c, ast.Call) and norm(c.func).split(".")[-1] == "sqrt" and len(c.args) == 1 and astq.const_value(c.args[0]) == 2)
+                                      or (isinstance(c, ast.BinOp) and isinstance(c.op, ast.Pow) and astq.const_value(c.left) == 2 and astq.const_value(c.right) == 0.5) for c in ast.walk(e))
+        consts = sorted({repr(c.value) for c in ast.walk(e) if isinstance(c, ast.Constant) and isinstance(c.value, (int, float)) and not isinstance(c.value, bool) and c.value not in (2, 0.5)}) if e is not None else []
+        additive = e is not None and any(isinstance(c, ast.BinOp) and isinstance(c.op, (ast.Add, ast.Sub)) for c in ast.walk(e))
+        forms[q] = {"rounding": rounding or ["truncation"], "sqrt2": sqrt2, "other constants": consts, "additive": additive, "text": short(e, 70) if e is not None else "?"}
+    if len(forms) == 2:
+        (qa, ta), (qb, tb) = forms.items()
+        same = all(ta[k] == tb[k] for k in ("rounding", "sqrt2", "other constants", "additive"))
+        res.ob(R, same and ta["sqrt2"], qb, "both writers enlarge the crop size the same way (x sqrt 2, same rounding)",
+               f"the enlarged pre-crop size is `{ta['text']}` ({'/'.join(ta['rounding'])}) in {qa.split(':')[1]} but `{tb['text']}` ({'/'.join(tb['rounding'])}) in {qb.split(':')[1]}: the stored "
+               "crops of the two frameworks differ in size/centre for some crop sizes", prog.func(qb).where)
+
+
+def enclosing_stmt18(n):
+    from ..core.program import enclosing_stmt
+    return enclosing_stmt(n)
+
+
 def check(prog: Program, res: Result) -> None:
     # the cached sample a dataset hands out is never written through (a second read of the same index must give the same
     # targets): shared with C11-cache
@@ -524,12 +582,16 @@ def check(prog: Program, res: Result) -> None:
     from . import _edges
     _edges.check_edge_order(prog, res, "C18-edges")
     check_crop_size(prog, res)
+    check_precrop(prog, res)
     check_frame(prog, res)
     check_npz(prog, res)
     check_wiring(prog, res)
     check_block(prog, res)
     check_memo(prog, res)
     check_index(prog, res)
+    # the frameworks agree on HOW MANY samples there are: the in-memory / npz datasets index exactly the frames (instances) the
+    # chunk functions emit - the non-empty ones (shared with C11-len)
+    res.borrow(_c11.check_len, "C18-len", prog)
     res.assumptions += ["pixel equality up to 8-bit quantisation is not decided", "centered-instance crop CENTRING differs between frameworks when scale != 1 (documented; excluded by the property's own wording)"]
 
 
